@@ -35,7 +35,8 @@ MANIFEST = {
 }
 RULE = ("configuration = (workload, buffer size, metric set); distinct by construction; non-trivial = the staged join "
         "called its inner strategy more than once (a thresholded join was rejected and retried) or the front has >= 2 points")
-ASSUMPTIONS = ["objective vectors compared to 6 significant digits"]
+ASSUMPTIONS = ["objective vectors compared to 6 significant digits, matched one to one within 2e-5 relative "
+               "(float32 tables vs float64 reference)"]
 
 WORKLOADS = {
     "MV2-424": S.MV2(4, 2, 4),
@@ -151,8 +152,8 @@ def body(cfg):
     if not info.get("no_pmappings"):
         keys = [k for k in ("staged", "plain", "rjoin") if k in out]
         vals = {k: norm(out[k]) for k in keys}
-        if len(set(vals.values())) > 1:
-            if vals["staged"] != vals.get("plain"):
+        if not all(c13.same_front(vals[keys[0]], vals[k]) for k in keys[1:]):
+            if not c13.same_front(vals["staged"], vals.get("plain", vals["staged"])):
                 fam = "staged-differs-from-plain-join"
             else:
                 fam = "joins-differ-from-reference-join"
